@@ -1,7 +1,15 @@
 package harness
 
-import "runtime"
+import (
+	"runtime"
+	"strconv"
+)
 
 func runtimeStack(buf []byte) int { return runtime.Stack(buf, true) }
 
 var heartbeat int64
+
+// itoa formats any integer without going through fmt (whose pooled printers add noise in race builds).
+func itoa[T ~int | ~int64 | ~uint32 | ~int32 | ~uint64 | ~uint8](v T) string {
+	return strconv.FormatInt(int64(v), 10)
+}
